@@ -595,3 +595,132 @@ func successEdgesFail(fn *ssa.Function, c *ssa.Call) []edge {
 	}
 	return out
 }
+
+// ---- C19-f: the de-duplication baseline is a real row before it is compared ----
+
+func init() {
+	register(&Rule{
+		ID: "C19-f", Template: "typestate (use before initialisation of a comparison baseline)",
+		Doc: "No row is dropped because it equals a placeholder: in pkg/sorter every call of the duplicate-key test (pkIsDifferent(cur, prev)) is reachable only after the baseline `prev` was filled from an emitted row (copy(prev, …)) — the first row is never compared against the freshly made all-empty slice, which equals a legal key made of empty strings.",
+		Min: 2,
+		Run: func(p *Program, r *RuleResult) error {
+			pkd, err := p.MustFuncs("pkg/sorter.pkIsDifferent")
+			if err != nil {
+				return err
+			}
+			fns := p.FuncsInPkg("pkg/sorter")
+			r.Analysed = len(fns)
+			for _, fn := range fns {
+				for _, c := range callsTo(fn, pkd) {
+					args := c.Common().Args
+					if len(args) < 2 {
+						continue
+					}
+					prev := args[1]
+					key := callKey(fn, c)
+					what := "duplicate-key test runs only after the baseline holds a real row's key"
+					// writes into prev: copy(prev, …)
+					writes := map[ssa.Instruction]bool{}
+					for _, b := range fn.Blocks {
+						for _, in := range b.Instrs {
+							call, ok := in.(*ssa.Call)
+							if !ok {
+								continue
+							}
+							if bi, ok := call.Call.Value.(*ssa.Builtin); ok && bi.Name() == "copy" && len(call.Call.Args) == 2 && sameObject(call.Call.Args[0], prev) {
+								writes[in] = true
+							}
+						}
+					}
+					// a "have a previous row" flag that only becomes true after the baseline was
+					// filled makes its true edge infeasible on paths that avoid the fill
+					cut := cutSet{}
+					for _, b := range fn.Blocks {
+						if len(b.Instrs) == 0 {
+							continue
+						}
+						if ifi, ok := b.Instrs[len(b.Instrs)-1].(*ssa.If); ok && flagTrueOnlyAfter(fn, ifi.Cond, writes) {
+							cut[edge{b, 0}] = true
+						}
+					}
+					if path, reach := reachAfter(fn, nil, c, cut, writes); reach {
+						r.bad(key, p.Rel(c.Pos()), what, fmtPath("the first row is compared against the placeholder baseline (a key made of empty strings equals it and the row is dropped)", path))
+					} else {
+						r.ok(key, p.Rel(c.Pos()), what)
+					}
+				}
+			}
+			return nil
+		},
+	})
+}
+
+// flagTrueOnlyAfter: cond is a bool built only from φs and constants, and every
+// constant `true` that can flow into it is assigned in a block that cannot be
+// reached from the function entry without passing one of `after`.
+func flagTrueOnlyAfter(fn *ssa.Function, cond ssa.Value, after map[ssa.Instruction]bool) bool {
+	if len(after) == 0 {
+		return false
+	}
+	seen := map[ssa.Value]bool{}
+	sawTrue := false
+	var walk func(v ssa.Value) bool
+	walk = func(v ssa.Value) bool {
+		if seen[v] {
+			return true
+		}
+		seen[v] = true
+		switch x := v.(type) {
+		case *ssa.Const:
+			return x.Value != nil && (x.Value.String() == "true" || x.Value.String() == "false")
+		case *ssa.Phi:
+			for k, e := range x.Edges {
+				if c, ok := e.(*ssa.Const); ok {
+					if c.Value == nil {
+						return false
+					}
+					if c.Value.String() == "true" {
+						sawTrue = true
+						pred := x.Block().Preds[k]
+						if len(pred.Instrs) == 0 {
+							return false
+						}
+						if _, reach := reachAfter(fn, nil, pred.Instrs[len(pred.Instrs)-1], nil, after); reach {
+							return false
+						}
+					}
+					continue
+				}
+				if !walk(e) {
+					return false
+				}
+			}
+			return true
+		case *ssa.UnOp:
+			// captured flag variable (closure cell): every stored value must qualify
+			if x.Op == token.MUL {
+				if cell := cellOf(x.X); cell != nil {
+					for _, st := range cellStores(cell) {
+						if c, ok := st.Val.(*ssa.Const); ok && c.Value != nil {
+							if c.Value.String() == "true" {
+								sawTrue = true
+								if st.Parent() != fn {
+									return false
+								}
+								if _, reach := reachAfter(fn, nil, st, nil, after); reach {
+									return false
+								}
+							}
+							continue
+						}
+						return false
+					}
+					return true
+				}
+			}
+			return false
+		}
+		return false
+	}
+	return walk(cond) && sawTrue
+}
